@@ -111,7 +111,7 @@ class BrokenIter:
         raise RuntimeError('iteration broke')
 
 
-KEYS = ['a', 'b', 'c', 'k0', 'k1', 'bad']
+KEYS = ['a', 'b', 'c', 'k0', 'k1', 'bad', 'x', 'X']
 LEAVES = [1, 2, 'leaf', '', None, 2.5, 'a']
 
 
@@ -455,12 +455,16 @@ def mutate_case(col, rng):
         rng.random()
     kind, t1 = mk()
     _, t2 = mk()
+    # the name of the key in front of the wildcard: ordinary, or one of the letters glom uses internally as the op codes
+    # of * and ** ('x', 'X') - a key is a key
+    top = rng.choice(['a', 'a', 'x', 'X'])
+    t1, t2 = {top: t1['a']}, {top: t2['a']}
     if kind == 'deep':
-        path_s, levels = 'a.*.sub.*.k', 2
-        parents = lambda t: [d for e in t['a'] for d in e['sub']]
+        path_s, levels = top + '.*.sub.*.k', 2
+        parents = lambda t: [d for e in t[top] for d in e['sub']]
     else:
-        path_s, levels = 'a.*.k', 1
-        parents = lambda t: list(t['a'].values()) if isinstance(t['a'], dict) else list(t['a'])
+        path_s, levels = top + '.*.k', 1
+        parents = lambda t: list(t[top].values()) if isinstance(t[top], dict) else list(t[top])
     spelling = rng.choice(['string', 'path', 'T'])
     if spelling == 'string':
         spec_path = path_s
@@ -472,7 +476,7 @@ def mutate_case(col, rng):
             t = t.__star__() if p == '*' else (getattr(t, p) if kind == 'list-of-objs' and p == 'k' else t[p])
         spec_path = t
     op = rng.choice(['assign', 'delete', 'delete-ignore'])
-    col.case(('mutate', kind, op, spelling), True)
+    col.case(('mutate', kind, op, spelling, top), True)
     col.count('wildcard_mutations')
     if op == 'assign':
         got = call(assign, t1, spec_path, 'NEW')
@@ -508,6 +512,42 @@ def mutate_case(col, rng):
                       % (op, short(spec_path), kind, short(t1, 300), short(t2, 300)), wit)
 
 
+def after_path_cache_overflow(col, rng):
+    """string-spelled wildcards whose text is parsed for the first time AFTER the text->Path memo has filled up (more than
+    Path._MAX_CACHE distinct path strings earlier in the process) mean what they always mean"""
+    filler = {'k': 1}
+    base = rng.randint(0, 10 ** 6)
+    for i in range(gcore.Path._MAX_CACHE + 60):
+        call(G, filler, 'ovf%d_%d.k' % (base, i), default=None)
+    col.count('path_cache_overflows')
+    for i in range(30):
+        name = 'fresh%d_%d' % (base, i)
+        rows = lambda: {name: [{'k': 1, 'o': 2}, {'k': 3}, {'o': 4}]}
+        for desc, spec, want in (('read *', name + '.*.k', [1, 3]), ('read **', name + '.**.k', [1, 3]),
+                                 ('read * then more', name + '.*', rows()[name])):
+            got = call(G, rows(), spec)
+            col.case(('after-overflow', desc), True)
+            col.count('wildcard_evaluations')
+            if not got.ok or got.value != want:
+                col.violation('C14/string-wildcard-after-path-cache-overflow:' + desc.split()[0],
+                              'glom(.., %r) parsed after the path memo filled up: %r, expected %r' % (spec, got, want), None)
+                return
+        t = rows()
+        got = call(assign, t, name + '.*.new', 'V')
+        col.count('wildcard_mutations')
+        if not got.ok or [r.get('new') for r in t[name]] != ['V', 'V', 'V']:
+            col.violation('C14/string-wildcard-after-path-cache-overflow:assign', 'assign(.., %r, ..) after overflow: %r, target %s'
+                          % (name + '.*.new', got if not got.ok else 'returned', short(t)), None)
+            return
+        t = rows()
+        got = call(delete, t, name + '.*.k', ignore_missing=True)
+        col.count('wildcard_mutations')
+        if not got.ok or any('k' in r for r in t[name]):
+            col.violation('C14/string-wildcard-after-path-cache-overflow:delete', 'delete(.., %r, ignore_missing=True) after overflow: %r, target %s'
+                          % (name + '.*.k', got if not got.ok else 'returned', short(t)), None)
+            return
+
+
 def run(ctx):
     col, rng = ctx.col, ctx.rng
     counter = StepCounter()
@@ -524,5 +564,8 @@ def run(ctx):
             eval_case(col, counter, rng)
         for i in range(ctx.n(2500, 10000)):
             mutate_case(col, rng)
+        if ctx.shard == 0:
+            after_path_cache_overflow(col, rng)
+            col.require('path_cache_overflows', 1)
     finally:
         counter.close()
